@@ -9,8 +9,8 @@ from lib.probes import sandwich, harvest_ints, harvest_strs
 from yowsup.layers.noise.layer_noise_segments import YowNoiseSegmentsLayer
 
 PID = "C05"
-GEN = ["tokendict"]
-LEAN_MODULES = ["YowsupVerif.Props.C05", "YowsupVerif.Props.Pipeline"]
+GEN = ["tokendict", "segsrc"]
+LEAN_MODULES = ["YowsupVerif.Props.C05", "YowsupVerif.Props.C05Src", "YowsupVerif.Props.Pipeline"]
 RULE = ("stream 'chunking': random sequences of non-empty frames (1 B..>64 KiB, sizes biased to 1,2,3,4,255,256,65535,65536 "
         "and to integer literals harvested from the current source ±1) cut at random points incl. inside the 3-byte header, "
         "optionally cut short in the middle of a frame; stream 'exhaustive' (thorough): every composition of a stream of at most "
